@@ -11,7 +11,10 @@ Inductive eop :=
 | EBlock (bid parent cid : N) (st : list (N * Z)) (dirty : list N)
 | EEvict (accs : list N) | EUnconf (accs : list N) | EGet
 (** a put whose unlocked validation and locked insertion are separated by a block arrival *)
-| ERacePut (i : nat) (bid parent cid : N) (st : list (N * Z)) (dirty : list N).
+| ERacePut (i : nat) (bid parent cid : N) (st : list (N * Z)) (dirty : list N)
+(** two concurrent removals of one hash; a removal racing a block arrival (same final state in either order) *)
+| ERmTwice (i : nat)
+| ERmBlock (i : nat) (bid parent cid : N) (st : list (N * Z)) (dirty : list N).
 
 (** (result code, length, orphan, lists (account, base nonce, ready, tx ids), cache ids
     ascending, get result per account, getUnconfirmed result) *)
@@ -79,6 +82,14 @@ Definition estep (tbl : list tx) (m : mstate) (eo : eop * eobs) : mstate * bool 
       let m1 := block_arrival m (mkB bid par cid (st_of st) dirty) in
       let '(r2, m2) := match r with POk => pool_insert m1 t | e => (e, m1) end in
       (m2, (perr_code r2 =? res)%N && state_ok (pl m2) o)
+  | ERmTwice i =>
+      let '(r, m1) := remove_tx m (get_tx tbl i) in
+      let m2 := snd (remove_tx m1 (get_tx tbl i)) in
+      (m2, (perr_code r =? res)%N && state_ok (pl m2) o)
+  | ERmBlock i bid par cid st dirty =>
+      let m1 := snd (remove_tx m (get_tx tbl i)) in
+      let m2 := block_arrival m1 (mkB bid par cid (st_of st) dirty) in
+      (m2, state_ok (pl m2) o)
   | EEvict accs => let m' := evict m accs in (m', state_ok (pl m') o)
   | EUnconf accs =>
       let '(r, m') := unconfirmed m accs in
